@@ -19,7 +19,54 @@ pub(crate) struct Index<K> {
     pub paths: DbPaths,
     pub state: Arc<RwLock<IndexState<K>>>,
     pub wal: Mutex<WalManager>,
-    pub pending_intents: Mutex<HashMap<K, BlobHash>>,
+    pub pending_intents: Mutex<PendingIntents<K>>,
+}
+
+/// Commits that have moved (or are about to move) their blob into the CAS directory but are not
+/// yet applied to the index.
+///
+/// `by_key` (also reachable through `Deref`) remembers the latest intent per key. It cannot
+/// protect blobs on its own: a second commit on the same key replaces the first one's entry and
+/// removes the entry altogether when it lands, although the first commit is still in flight. So
+/// blob protection is decided by `in_flight`, a count of unfinished commits per blob hash.
+pub(crate) struct PendingIntents<K> {
+    by_key: HashMap<K, BlobHash>,
+    in_flight: HashMap<BlobHash, usize>,
+}
+
+impl<K> Default for PendingIntents<K> {
+    fn default() -> Self {
+        Self { by_key: HashMap::default(), in_flight: HashMap::default() }
+    }
+}
+
+impl<K> std::ops::Deref for PendingIntents<K> {
+    type Target = HashMap<K, BlobHash>;
+
+    fn deref(&self) -> &Self::Target {
+        &self.by_key
+    }
+}
+
+impl<K> PendingIntents<K> {
+    /// Returns true if an unfinished commit is going to reference `hash`; such a blob must not be
+    /// deleted even if no key references it (yet).
+    pub(crate) fn protects(&self, hash: &BlobHash) -> bool {
+        self.in_flight.contains_key(hash)
+    }
+
+    fn begin(&mut self, hash: BlobHash) {
+        *self.in_flight.entry(hash).or_default() += 1;
+    }
+
+    fn end(&mut self, hash: &BlobHash) {
+        if let Some(count) = self.in_flight.get_mut(hash) {
+            *count -= 1;
+            if *count == 0 {
+                self.in_flight.remove(hash);
+            }
+        }
+    }
 }
 
 /// A read-only view of the index state.
@@ -179,6 +226,8 @@ where
     size: u64,
     replaced_hash: Option<BlobHash>,
     committed: bool,
+    // set once the blob no longer needs the in-flight protection (the op was applied to the index)
+    protection_ended: bool,
 }
 
 #[derive(Debug, Clone, Copy)]
@@ -196,7 +245,16 @@ where
         mut self,
         delete_fn: &crate::types::DeleteBlobCallFn,
     ) -> Result<(), IndexError> {
-        self.index.apply_put_op(self.key.clone(), self.hash, self.size, delete_fn)?;
+        let mut protection_ended = false;
+        let result = self.index.apply_put_op(
+            self.key.clone(),
+            self.hash,
+            self.size,
+            delete_fn,
+            &mut protection_ended,
+        );
+        self.protection_ended = protection_ended;
+        result?;
         self.committed = true;
         Ok(())
     }
@@ -207,20 +265,28 @@ where
     K: Clone + Eq + Ord + std::hash::Hash,
 {
     fn drop(&mut self) {
+        if self.committed && self.protection_ended {
+            return;
+        }
+        #[cfg(feature = "verif")]
+        crate::verif::point("intent_drop.intents", crate::verif::WANT_INTENTS);
+        let mut intents = self.index.pending_intents.lock();
+
+        if !self.protection_ended {
+            // The commit was abandoned before it was applied: its blob needs no protection any more.
+            intents.end(&self.hash);
+        }
+
         if !self.committed {
             // Revert: Remove our intent from pending_intents
-            #[cfg(feature = "verif")]
-            crate::verif::point("intent_drop.intents", crate::verif::WANT_INTENTS);
-            let mut intents = self.index.pending_intents.lock();
-
-            if let Some(current_hash) = intents.get(&self.key)
+            if let Some(current_hash) = intents.by_key.get(&self.key)
                 && *current_hash == self.hash
             {
-                intents.remove(&self.key);
+                intents.by_key.remove(&self.key);
 
                 // If we had replaced an existing intent, restore it
                 if let Some(replaced_hash) = self.replaced_hash {
-                    intents.insert(self.key.clone(), replaced_hash);
+                    intents.by_key.insert(self.key.clone(), replaced_hash);
                 }
             }
         }
@@ -257,7 +323,7 @@ where
             paths,
             state,
             wal: Mutex::new(wal_manager),
-            pending_intents: Mutex::new(HashMap::default()),
+            pending_intents: Mutex::new(PendingIntents::default()),
         };
 
         // Only checkpoint after replay if we actually replayed something
@@ -291,10 +357,11 @@ where
         let mut intents = self.pending_intents.lock();
 
         // Check if there was a previous intent for this key
-        let replaced_hash = intents.get(&key).copied();
+        let replaced_hash = intents.by_key.get(&key).copied();
 
         // Insert the new intent
-        intents.insert(key.clone(), meta.blob_hash);
+        intents.by_key.insert(key.clone(), meta.blob_hash);
+        intents.begin(meta.blob_hash);
 
         Ok(IntentGuard {
             index: self,
@@ -303,6 +370,7 @@ where
             size: meta.blob_size,
             replaced_hash,
             committed: false,
+            protection_ended: false,
         })
     }
 
@@ -312,6 +380,7 @@ where
         hash: BlobHash,
         size: u64,
         delete_fn: &crate::types::DeleteBlobCallFn,
+        protection_ended: &mut bool,
     ) -> Result<(), IndexError> {
         let logical_op = WalOp::Put { key: key.clone(), hash, size };
         #[cfg(feature = "verif")]
@@ -332,11 +401,14 @@ where
 
         #[cfg(feature = "verif")]
         crate::verif::point("apply_put.applied", crate::verif::WANT_NONE);
-        intents.remove(&key);
+        intents.by_key.remove(&key);
+        // The index references the blob now; end its in-flight protection under the same lock, so
+        // that a later removal of this key is free to reclaim the blob.
+        intents.end(&hash);
+        *protection_ended = true;
 
-        // Filter out any unreferenced hashes that are still referenced by other intents
-        unreferenced_from_op
-            .retain(|hash| !intents.values().any(|intent_hash| intent_hash == hash));
+        // Filter out any unreferenced hashes that an unfinished commit is going to reference
+        unreferenced_from_op.retain(|hash| !intents.protects(hash));
 
         // Delete blobs BEFORE any checkpoint
         if !unreferenced_from_op.is_empty() {
@@ -386,9 +458,8 @@ where
 
         #[cfg(feature = "verif")]
         crate::verif::point("apply_remove.applied", crate::verif::WANT_NONE);
-        // Remove any unreferenced hashes that are still referenced by intents
-        unreferenced_from_op
-            .retain(|hash| !intents.values().any(|intent_hash| intent_hash == hash));
+        // Remove any unreferenced hashes that an unfinished commit is going to reference
+        unreferenced_from_op.retain(|hash| !intents.protects(hash));
 
         // Delete blobs BEFORE any checkpoint
         if !unreferenced_from_op.is_empty() {
